@@ -83,6 +83,8 @@ func c15Exec(c *Ctx, op string) string {
 	switch f[0] {
 	case "sr.filter":
 		return srExec(c, op)
+	case "rm.alloc":
+		return rmExec(c, []string{op})[0]
 	case "cni.chain", "cni.gen":
 		return c20Exec(c, []string{op})[0]
 	case "#":
@@ -315,6 +317,8 @@ func c15Run(c *Ctx) {
 	}
 	// (4) stored records through the daemon's start-up filter
 	srRun(c, "C15", c.Scale(600, 12000))
+	// ConfigMap content that reaches a wait loop of the daemon: backoff_override x Remote.Allocate (c15remote.go)
+	rmRun(c, c.Scale(60, 600))
 	// (5) CNI configuration lists through terway-cli (c20.go)
 	c15ChainRun(c, c.Scale(500, 8000))
 }
